@@ -398,17 +398,24 @@ class LeaderNode(Entity):
             },
         )
 
-        # Schedule next anti-entropy round
-        next_ae = Event(
-            time=self.now.__class__.from_seconds(
-                self.now.to_seconds() + self._anti_entropy_interval
-            ),
-            event_type="AntiEntropy",
-            target=self,
-            daemon=True,
-        )
+        # Schedule next anti-entropy round. With periodic anti-entropy disabled
+        # (interval 0, the default) an AntiEntropy event is a single manually
+        # triggered round: re-arming it would put the next round at the current
+        # instant, forever.
+        events = [ae_event]
+        if self._anti_entropy_interval > 0:
+            events.append(
+                Event(
+                    time=self.now.__class__.from_seconds(
+                        self.now.to_seconds() + self._anti_entropy_interval
+                    ),
+                    event_type="AntiEntropy",
+                    target=self,
+                    daemon=True,
+                )
+            )
 
-        yield 0.0, [ae_event, next_ae]
+        yield 0.0, events
         return None
 
     def _handle_anti_entropy_request(
